@@ -60,6 +60,9 @@ pub uninterp spec fn insert_ops(qb: QbSpec, s: InsertStatement, t: Seq<Op>) -> S
 pub uninterp spec fn update_ops(qb: QbSpec, s: UpdateStatement, t: Seq<Op>) -> Seq<Op>;
 pub uninterp spec fn delete_ops(qb: QbSpec, s: DeleteStatement, t: Seq<Op>) -> Seq<Op>;
 pub uninterp spec fn with_ops(qb: QbSpec, s: WithQuery, t: Seq<Op>) -> Seq<Op>;
+#[verifier::external_body]
+pub struct SimpleExpr { _opaque: u8 }
+pub uninterp spec fn expr_ops(qb: QbSpec, e: SimpleExpr, t: Seq<Op>) -> Seq<Op>;
 '''
 
 STRING_WRITER = r'''
@@ -103,6 +106,7 @@ def build(u):
     u.type_item("src/query/delete.rs", "struct", "DeleteStatement", props=P, keep_fields=["limit"])
     u.type_item("src/query/insert.rs", "struct", "InsertStatement", props=P, keep_fields=["replace"])
     u.type_item("src/query/with.rs", "struct", "WithQuery", props=P, keep_fields=[])
+    u.type_item("src/types.rs", "struct", "OrderExpr", props=["C03", "C01"], keep_fields=["expr"])
     u.spec(SHIMS, "writer::shims", props=P)
     u.spec(STRING_WRITER, "writer::String-as-VWrite", props=P)
 
@@ -183,6 +187,7 @@ impl QueryBuilder for %s {
         u.fn(path, blk, "prepare_value", props=P, rules=[r_dyn, r_unit_tail], key="%s::prepare_value[%s]" % (ty, how), vpath=ty + "::prepare_value", no_canary=True)
         for (st, sf, fn, ops) in STMTS:
             u.emit("    #[verifier::external_body]\n    fn %s<W: SqlWriter>(&self, s: &%s, sql: &mut W) { unimplemented!() }\n" % (fn, st), kind="spec", key="writer::abstract-renderer", props=P)
+        u.emit("    #[verifier::external_body]\n    fn prepare_simple_expr<W: SqlWriter>(&self, simple_expr: &SimpleExpr, sql: &mut W) { unimplemented!() }\n", kind="spec", key="writer::abstract-renderer", props=P)
         u.emit("}\n")
         # clause renderers that push values (trait defaults unless overridden)
         u.emit("impl %s {\n" % ty)
@@ -200,6 +205,16 @@ impl QueryBuilder for %s {
                 raise
             u.fn(path, blk, fn, props=["C01"], rules=[r_dyn, r_wfmt], key="%s::%s[%s]" % (ty, fn, how), vpath="%s::%s" % (ty, fn),
                  spec="ensures\n    // the clause's values are pushed once each, in this order, after their keyword\n    " + REL % spec_t)
+        # ORDER BY FIELD list: inline literals written through the backend's own value_to_string, nothing bound
+        path, blk, how = resolve(u, ty, "prepare_field_order", f)
+        u.fn(path, blk, "prepare_field_order", props=["C03", "C01"], rules=[r_dyn, r_wfmt, make_r_sub("R-forghost", r"for value in &values\.0", "for value in it: values.0.iter()")],
+             key="%s::prepare_field_order[%s]" % (ty, how), vpath="%s::prepare_field_order" % ty,
+             spec="ensures\n    // every list value is written inline as THIS backend's literal (vts), in list order; no parameter is pushed\n    "
+                  + "forall|t: Seq<Op>, c: Cfg| #[trigger] old(sql).rel(t, c) ==> final(sql).rel(field_order_ops(self, order_expr.expr, values.0@, values.0@.len(), t).push(Op::Text(\"ELSE \"@)).push(Op::Text(num_text_int(values.0@.len() as int))).push(Op::Text(\" END\"@)), c),",
+             loops=["""invariant
+    i == it.index@, it.index@ <= values.0@.len(), values.0@.len() < i32::MAX,
+    forall|t: Seq<Op>, c: Cfg| #[trigger] s0.rel(t, c) ==> sql.rel(field_order_ops(self, order_expr.expr, values.0@, it.index@ as nat, t), c),"""],
+             proofs={"body-start": "let ghost s0 = *sql;\nproof { assume(values.0@.len() < i32::MAX); } // ASSUMED: an ORDER BY FIELD list has fewer than 2^31 values (the counter `i` is an i32)"})
         u.emit("}\n")
 
     # ---- public entry points --------------------------------------------------------------------------------------------------
